@@ -23,6 +23,19 @@ fn key_lit(rng: &mut Rng, i: usize) -> Lit {
     }
 }
 
+/// keys that a sloppy comparator (case-folding, trimming, numeric, by length, by display text) would tie
+const CONFUSABLE: &[&[&str]] = &[
+    &["rock", "Rock", "ROCK", "rocK"],
+    &["a", "a ", " a", "A", "a\t"],
+    &["1", "01", "1.0", "1e0", "+1", " 1"],
+    &["true", "True", "null", "mysterious", "false"],
+    &["é", "É", "e\u{301}", "e"],
+    &["ab", "abc", "abd", "b", "ba"],
+    &["ß", "ss", "SS", "ẞ"],
+    &["", " ", "  ", "\u{a0}"],
+    &["k10", "k9", "k09", "K10"],
+];
+
 pub fn dict_program(rng: &mut Rng) -> (Program, usize) {
     let d = simple("Dict");
     let e = simple("Elsa");
@@ -33,19 +46,40 @@ pub fn dict_program(rng: &mut Rng) -> (Program, usize) {
         ss.push(Stmt::Push { array: pvar(&d), value: Some(PushRhs::List(vec![strlit("first"), strlit("second")])) });
     }
     let mut used: Vec<Lit> = Vec::new();
+    let mut entries_kv: Vec<(Lit, Expr)> = Vec::new();
+    let family = if rng.chance(1, 3) { Some(*rng.pick(CONFUSABLE)) } else { None };
     for i in 0..nkeys {
-        let k = key_lit(rng, i);
+        let k = match family {
+            // mostly members of one confusable family, with the other key kinds of the same spelling mixed in
+            Some(f) if !rng.chance(1, 5) => Lit::Str(rng.pstr(f).to_string()),
+            _ => key_lit(rng, i),
+        };
         if used.contains(&k) {
             continue;
         }
         used.push(k.clone());
         let val = if all_strings || rng.chance(3, 4) { strlit(&format!("v{}", i)) } else { num(i as f64) };
+        entries_kv.push((k.clone(), val.clone()));
         ss.push(Stmt::Assign { dest: Lhs::Sub(Box::new(pvar(&d)), Box::new(Prim::Lit(k))), op: None, value: vec![val] });
     }
     let entries = used.len();
     let n = rng.range(1, 3);
     for _ in 0..n {
-        match rng.below(9) {
+        match rng.below(11) {
+            9 | 10 => {
+                // the same dictionary built a second time, independently (entries in another order), compared
+                let t = simple("Twin");
+                let mut kv = entries_kv.clone();
+                kv.reverse();
+                if rng.coin() {
+                    rng.shuffle(&mut kv);
+                }
+                for (k, v) in kv {
+                    ss.push(Stmt::Assign { dest: Lhs::Sub(Box::new(pvar(&t)), Box::new(Prim::Lit(k))), op: None, value: vec![v] });
+                }
+                ss.push(say(bin(BinOp::Eq, var(&d), var(&t))));
+                ss.push(say(bin(BinOp::NotEq, var(&t), var(&d))));
+            }
             0 | 1 | 2 => {
                 // join (into a copy, so several observations fit one program)
                 let param = if rng.coin() { Some(strlit(*rng.pick(&[",", "", " + "]))) } else { None };
@@ -242,6 +276,13 @@ pub fn run(ctx: &mut Ctx) {
     let n = ctx.size(6_000, 150_000);
     ctx.cases("corpus", n, |ctx, rng, _| {
         let p = corpus_program(rng);
+        // only programs the reference model follows to the end within its budget: the others may legitimately
+        // allocate without bound (seen: one of them took a whole shard with it in a thorough run)
+        let model = crate::refi::run(&p, b"line\n", &crate::refi::Budget::default());
+        if !matches!(model.outcome, crate::refi::RefOutcome::Ok | crate::refi::RefOutcome::Error(_)) {
+            ctx.count("corpus_programs_outside_the_models_budget_skipped");
+            return;
+        }
         let text = match render(&p, &Spelling::canonical(), rng) {
             Ok(r) => r.text,
             Err(_) => return,
